@@ -257,8 +257,14 @@ theorem eqIcase_nil_iff {a b : Bytes} (h : eqIcase a b = true) : a = [] ↔ b = 
   have := congrArg List.length h
   simp only [List.length_map] at this
   constructor
-  · intro e; subst e; simp at this; exact this.symm
-  · intro e; subst e; simp at this; exact this
+  · intro e; subst e
+    cases b with
+    | nil => rfl
+    | cons y ys => simp at this
+  · intro e; subst e
+    cases a with
+    | nil => rfl
+    | cons y ys => simp at this
 
 /-- the guard of mod_alias_remap() fires exactly when the first segment after the matched
     prefix is "." or ".." -/
